@@ -75,6 +75,27 @@ class TraceRun:
             self.nonbool_guard = True
         return 1 if v == 1 else (0 if v == 0 else v)
 
+    def cb_valret(self, obj, ret):
+        """x.val() hands back a plain value: it has to be the value of x (C04: in every mode, also under a false guard)."""
+        lc = self.w.lc_of(obj)
+        if lc is None or "C04" not in self.props:
+            return
+        self.probe("val_returned")
+        want = lc.value
+        if isinstance(obj, self.w.fixedpoint.LinCombFxp):
+            ok = isinstance(ret, float) and abs(ret * (1 << self.w.fixedpoint.resolution) - want) < 1e-6 * max(1, abs(want))
+        else:
+            ok = (not isinstance(ret, float)) and ret is not None and int(ret) == want
+        if not ok and not self.c04_reported:
+            self.c04_reported = True
+            self.violations.append(vio("C04", "val_ne_value", {"op": "val", "dead": self.ctx_flags_now().get("dead")},
+                                       "val() returned %r, the object's value is %r" % (ret, want)))
+
+    def ctx_flags_now(self):
+        rt = self.w.runtime
+        g = self.w.lc_of(rt.guard) if rt.guard is not None else None
+        return {"dead": bool(g is not None and g.value == 0)}
+
     def cb_set_ie(self, v):
         self.w.runtime.ignore_errors(v)
         self.user_ie = v
@@ -367,7 +388,7 @@ class TraceRun:
             "LinCombFxp": w.fixedpoint.LinCombFxp,
             "if_then_else": w.branching.if_then_else, "Array": w.array.Array,
             "__zero__": rt.ConstVal(0), "__poseidon__": self.cb_poseidon, "__inputs__": self.inputs,
-            "__E__": PlanEnum, "__ret__": self.cb_ret, "__alt__": self.alt_inputs,
+            "__E__": PlanEnum, "__ret__": self.cb_ret, "__alt__": self.alt_inputs, "__valret__": self.cb_valret,
             "__ext__": lambda nm, v: self.tracked.__setitem__("ext." + nm, snapshot_values(v, self.w.lc_of)),
             "__set_res__": self.cb_set_res, "__set_bl__": self.cb_set_bl, "__prove__": self.cb_prove,
             "__step__": self.cb_step, "__enter__": self.cb_enter,
@@ -650,4 +671,4 @@ def run_native(plan, inputs=None, snapshots=None, alt=None):
     run_native.last_caught = caught
     run_native.last_calls = calls
     run_native.last_rets = rets
-    return outcome, dict({k[2:]: v for k, v in g.items() if k.startswith("T_")}, **ext), src
+    return outcome, dict({k[2:]: snapshot_values(v) for k, v in g.items() if k.startswith("T_")}, **ext), src
